@@ -413,6 +413,19 @@ theorem resolve_imaginary_gap (r : Raw) (hwf : Spec.wf r = true) (w : Int) (f : 
       rw [Spec.mem_pre_iff, fromutcSpec_iff r hwf hf hfb hc hw]; exact m2
     rw [hnil] at this; simp at this
 
+/-- **explicit_tz_wins.** The public helpers with both arguments: an explicit `tz` decides, whatever
+    zone (or none) the datetime carries; without it the datetime's own zone is used; a naive datetime
+    without `tz` is a `ValueError`; `resolve_imaginary` leaves a naive datetime alone.  So every
+    theorem above about `datetimeExists z w` / `isAmbiguous` is a statement about each call form. -/
+theorem explicit_tz_wins (z : ZoneOps) (other : Option ZoneOps) (w : Wall) :
+    datetimeExistsArgs other (some z) w = datetimeExists z w ∧
+    datetimeAmbiguousArgs other (some z) w = datetimeAmbiguous z w ∧
+    datetimeExistsArgs (some z) none w = datetimeExists z w ∧
+    datetimeAmbiguousArgs (some z) none w = datetimeAmbiguous z w ∧
+    datetimeExistsArgs none none w = .error .ValueError ∧
+    datetimeAmbiguousArgs none none w = .error .ValueError ∧
+    resolveImaginaryArgs none w = .ok w := ⟨rfl, rfl, rfl, rfl, rfl, rfl, rfl⟩
+
 /-! non-vacuity: 2000100 is read twice in `exR` (set back one hour at 2000000) -/
 def exR : Raw := { trans := [(1000000, 1), (2000000, 0), (3000000, 1)],
                    types := [⟨0, 0, [65], false, false, 0⟩, ⟨3600, 1, [66], false, false, 0⟩] }
